@@ -12,6 +12,7 @@ CLAIMS = {
  "C03": ("theorems: frame and raise-frame of the workspace model for all 32 operations and all histories (specification the code is compared to); tie: whole-store deep snapshots before/after every real call, shared-state identity checks", "5 C03"),
  "C04": ("theorems: binop_spec (element-wise by NAME for every pair of dim lists, broadcasting), succeeds iff shared coords agree, permutation invariance, scalar/array variants; tie: enumerated dim-list pairs through real code and model + order-free oracle", "5 C04"),
  "C05": ("theorems: int/float/range selector logic (argmin is first minimiser; range = non-empty contiguous run between nearest positions), read=write by shared conversion, pinned defect refuted on a witness; tie: enumerated selectors x axis kinds + specification oracle", "5 C05"),
+ "C07": ("theorems over an abstract HDF5 tree: every storable attribute value round-trips (None through the alias, lists/tuples/arrays as one class), attribute dictionaries keep their mapping, the history comes back entry by entry IN ORDER for any length (induction; '%i:%s' then split(':',1) returns the name), load(save x) = x field by field; tie: real files written by the real code are dumped through h5py and compared with the model's tree, loaded objects with the model's, plus the property itself on every case and on every shipped sample that imports", "5 C07"),
  "C08": ("theorems: the bracket theorem (unfold -> per-column function -> fold acts on each by-name trace, any rank / position), the same for the axis-index mechanism and named reductions, equality of the two mechanisms, permutation equivariance as a corollary, pinned interp refuted on a witness; tie: every registry function x dim position through real code and model + f(permute x)=permute(f x) and single-trace oracles", "5 C08"),
  "C09": ("theorems (any field with a primitive N-th root of unity): the model's per-trace transform is the DFT sum, linearity, orthogonality, an on-grid tone peaks at its own bin only, idft(dft x) = x, ifftshift∘fftshift = id for every length (and fftshift twice is not, odd N), the shifted axis coordinate of bin b is ≡ b/(N dt) mod 1/dt for even and odd N, renaming; tie: Lean DFT model vs numpy.fft (twiddles as parameter), exact axis over Q, direct O(n^2) DFT / tone / round-trip oracles for every length of the tier", "5 C09"),
  "C10": ("theorems: ufunc on own operand values with labels kept, reduction by name/position removes exactly that dim and is f of each trace, full reduction returns the scalar; tie: registry x arrangements x axes through real NumPy dispatch and model", "5 C10"),
@@ -19,6 +20,7 @@ CLAIMS = {
  "C13": ("theorems over C (Mathlib): |z·cis| = |z|, cis adds, inverse, p0 360-periodic, the angle reduction is the identity on (-360,360), exp(-i pi/2 r) = (-i)^r, placement of the factor per trace via the bracket theorem; pinned sign defect refuted; tie: closed-form factor table vs real phase(), algebraic-law oracles, autophase magnitude/replay/reference-slice oracle. Partial: that the optimiser finds the right phase is not a theorem", "5 C13"),
  "C14": ("theorems: id - P annihilates polynomials, is idempotent and linear for ANY linear fit map P that reproduces sampled polynomials (numpy.polyfit's assumed specification, hypotheses not axioms); normalize: largest magnitude exactly 1, positive factor, idempotent; the model's numpy.interp returns the node value at every node (interp on own coordinates = identity) and the straight line between nodes; left_shift = slice n:; ndalign only rolls and keeps the first trace; tie: exact model for normalize/interp/left_shift/ndalign, per-trace table for the fit, algebraic-law oracles. Partial: polyfit S1/S2 assumed; shift-equivariance on the implementation only (known finding for lags beyond n/2)", "5 C14"),
  "C15": ("theorems: apodize multiplies every element by the window value at its own position along dim (same window for every trace), unknown kinds rejected over the window table REGENERATED from the source, over R: exponential closed form, first point 1 and never increasing for exponential/gaussian/hann/hamming; tie: the same generic Lean formulas evaluated in Float vs dnplab.math.window, apodize correspondence, window oracles", "5 C15"),
+ "C17": ("theorems about the model of the repaired save_h5: refusal without overwrite leaves the destination untouched, ANY fault (an unstorable value at any position) leaves the destination exactly as it was, success holds the complete tree; pinned truncate-then-write refuted on a witness; tie: fault enumeration over every injection position x previous file x overwrite, outcome classes compared with the model and with the property", "5 C17"),
  "C11": ("theorems: every stamping step appends, pipeline_prefix by induction over any pipeline, input untouched (frame); tie: pipelines on objects with 0-12 pre-existing entries + history oracle", "5 C11"),
 }
 NOT_YET = {}
